@@ -3,7 +3,10 @@ use super::job::*;
 use futures::task::{Context, Poll};
 use std::mem;
 
+#[cfg(not(logicalshift_desync_verif))]
 use std::sync::*;
+#[cfg(logicalshift_desync_verif)]
+use desync_verif_rt::sync::*;
 
 ///
 /// The unsafe job does not manage the lifetime of its TFn
